@@ -43,9 +43,24 @@ class ClassInfo:
                     self.assigns[st.target.id] = st.value
         self.base_names = [ast.unparse(b) for b in node.bases]
 
+    ENUM_BASES = ('Enum', 'IntEnum', 'Flag', 'IntFlag', 'StrEnum')
+
+    @property
+    def enum_kind(self):
+        """'Enum' | 'IntEnum' | 'Flag' | 'IntFlag' | 'StrEnum' for an enumeration class (by its base in the source), else None."""
+        for b in self.base_names:
+            k = b.split('.')[-1]
+            if k in self.ENUM_BASES:
+                if k == 'Enum' and any(x.split('.')[-1] == 'int' for x in self.base_names):
+                    return 'IntEnum'
+                if k == 'Enum' and any(x.split('.')[-1] == 'str' for x in self.base_names):
+                    return 'StrEnum'
+                return k
+        return None
+
     @property
     def is_enum(self) -> bool:
-        return 'Enum' in self.base_names
+        return self.enum_kind is not None
 
     @property
     def is_dataclass(self) -> bool:
@@ -58,13 +73,32 @@ class ClassInfo:
     def enum_members(self) -> Dict[str, object]:
         """name -> constant value, in source order (only literal-valued members)."""
         out: Dict[str, object] = {}
+        flag = self.enum_kind in ('Flag', 'IntFlag')
         for n in self.order:
             v = self.assigns.get(n)
+            if isinstance(v, ast.Call) and ast.unparse(v.func).split('.')[-1] == 'auto' and not v.args and not n.startswith('_'):
+                # enum.auto(): 1, 2, 3 ... after the last value (next power of two for flags; the lower-cased name for StrEnum)
+                if self.enum_kind == 'StrEnum':
+                    out[n] = n.lower()
+                else:
+                    ints = [x for x in out.values() if isinstance(x, int) and not isinstance(x, bool)]
+                    if flag:
+                        hi = max(ints) if ints else 0
+                        out[n] = 1 if hi == 0 else 1 << hi.bit_length()
+                    else:
+                        out[n] = (ints[-1] + 1) if ints else 1
+                continue
             if isinstance(v, ast.Constant) and not n.startswith('_'):
                 out[n] = v.value
             elif isinstance(v, ast.UnaryOp) and isinstance(v.op, ast.USub) and isinstance(v.operand, ast.Constant) \
                     and isinstance(v.operand.value, (int, float)) and not n.startswith('_'):
                 out[n] = -v.operand.value
+            elif isinstance(v, ast.Tuple) and not n.startswith('_'):
+                # a member whose value is a tuple of literals (the arguments of the enumeration's __init__)
+                try:
+                    out[n] = ast.literal_eval(v)
+                except (ValueError, SyntaxError):
+                    pass
         return out
 
     def method_kind(self, name: str) -> str:
